@@ -49,12 +49,15 @@ CHECKS = {
              "(identity proved an easing; cosine assumed f 0 = 0, f 1 = 1, 0 <= f <= 1): the model equals the closed-form reference "
              "trace; one message per tick from the first to the last control point; v_i + (v_next - v_i) * f(j/D_i) on its tick; control "
              "points hit exactly on their own tick; values within the segment's hull; zero-duration jump; non-numeric fields pass "
-             "through; interpolating non-control events is rejected.",
+             "through; interpolating non-control events is rejected. Muting masks, it does not pause (Interp/Mute.lean): for EVERY pattern "
+             "of mute flags the device hears the never-muted run with the muted ticks blanked, so control points are still hit exactly on "
+             "their own tick after any muted stretch (control_points_exact_when_unmuted, curve_closed_form_when_unmuted).",
         design="DESIGN.md §3 C15, notes/NOTES-C15.md",
         note="Trusted: Lean kernel + standard axioms; model lean/IsobarV/Interp/Model.lean tied to the interpolating branch of "
              "Track.tick and PInterpolate by the correspondence (real Timeline at 10 PPQN values; ticks exact, values to 1e-9, integer "
              "end points exactly) and an exact-rational closed-form oracle in the harness; libm cos is used by the driver for number "
-             "output only and is a parameter of the theorems.",
+             "output only and is a parameter of the theorems. A second curve on a retained track after the resolution changed, and the "
+             "curve after unmute, are decided by differential oracles on the implementation (the latter also against the model, driver runmuted).",
         technique="Lean 4 theorems over Rat (model = closed-form reference, induction over segments) + exact closed-form oracle + differential correspondence"),
     "C14": dict(
         text="Theorems, unbounded in rates, run lengths, wake-up sequences, message sequences: the multiplier accepts iff one rate divides "
@@ -103,7 +106,10 @@ CHECKS = {
         text="Theorems: a reference is transparent and re-targeting takes effect at the very next step; a constant is never advanced; "
              "operands / index parameters are consumed exactly once per step in order; nested pattern items are resolved per visit. "
              "The (class, parameter) registry is derived from the source by an AST pass on every run; scalar vs PConstant vs "
-             "PRef(PConstant) equivalence is decided on the real objects; varying parameter streams against the model.",
+             "PRef(PConstant) equivalence is decided on the real objects; varying parameter streams against the model. The by-name "
+             "reference PGlobals over Globals holding patterns (Static GEnv, Props/C12Names.lean): after Globals.set the next read is "
+             "the new target's first value whatever was there before; n successive reads walk the pattern one value per read in order; "
+             "other names are untouched (driver gset/gget against the real Globals/PGlobals).",
         design="DESIGN.md §3 C12",
         note=PAT_NOTE + " In the model a scalar and PConstant(scalar) are the same node, so that equivalence is an implementation-side oracle; unmodelled registry pairs are listed in the evidence.",
         technique="Lean 4 per-class consumption theorems + AST-derived registry + variant-equivalence oracle + correspondence"),
@@ -191,7 +197,9 @@ CHECKS = {
              "nothing; finished iff StopIteration caught with nothing sounding; removal iff finished and remove-when-done; "
              "StopIteration from tick() iff no track and no pending start and stop-when-done (never when off); refused schedule "
              "changes nothing; no API call takes the track count past a non-zero limit; named replace does not grow the list; "
-             "removed/muted tracks emit nothing.",
+             "removed/muted tracks emit nothing; run(stop_when_done=False) switches the setting off whatever it was and then no tick of "
+             "the run stops, however many follow (run_keyword_off_never_stops; the harness drives the real run() keyword and the "
+             "attribute alternately against the model's op, and re-used timelines over several run() sessions).",
         design="DESIGN.md §3 C06",
         note=SCHED_NOTE + " len<=max_tracks is proved per API call and as an invariant over whole histories (any calls, ticks, callbacks, faults) that do not change the limit itself. "
              "'Performs exactly min(count, length) events' is proved for the whole life of a track inside a timeline of any number of tracks "
@@ -208,7 +216,9 @@ CHECKS = {
              "tracks' own trajectories, the rest of the timeline evolves independently of the tracks, and the calls of every tick are "
              "the phase-wise concatenation, in scheduling order, of exactly the calls the timeline holding each track alone makes. "
              "Static patterns / globals: a Lean state machine with idempotence, never-skips, held-at-least-its-duration theorems, "
-             "driven by the read times of the real pattern.",
+             "driven by the read times of the real pattern; a rewind of the inner pattern (a constructor built around the shared "
+             "pattern) keeps the held value and its duration (static_rewind_keeps_hold); Globals holding scalars and patterns as an "
+             "environment model (latest value set, default when unset, names independent), driven by the same set/read histories.",
         design="DESIGN.md §3 C07",
         note=SCHED_NOTE + " The decomposition is proved per tick and over whole runs for worlds without action callbacks and with "
              "stop-when-done off (with callbacks or stop-when-done tracks interact by design); the run theorem needs no hypothesis on "
@@ -219,7 +229,8 @@ CHECKS = {
         text="Theorems: in tolerant mode no track exception ever escapes the track phase (any fault site, any number/order of "
              "tracks), the timeline's time advances exactly one tick per tick; the failing track is removed, its notes released, and "
              "the remaining tracks of the snapshot are still ticked; in intolerant mode the exception propagates; callback "
-             "exceptions are swallowed in both modes; a callback StopIteration ends the track.",
+             "exceptions are swallowed in both modes; a callback StopIteration ends the track; the name of a removed track is free "
+             "again: scheduling under it creates a new track built from the call alone (schedule_under_free_name_adds / _independent).",
         design="DESIGN.md §3 C17",
         note=SCHED_NOTE + " 'Every other track's output is identical to a run without the failing track' is the theorem "
              "fault_isolated (one tick) and fault_isolated_run (any number of ticks: same states of all other tracks, the failing "
